@@ -546,6 +546,11 @@ static int reader_seek_indexed(struct reftable_reader *r,
 		iterator_from_table_iter(it, malloced);
 	}
 done:
+	if (err > 0) {
+		/* The key is beyond the last index entry: nothing to return. */
+		iterator_set_empty(it);
+		err = 0;
+	}
 	block_iter_close(&next.bi);
 	table_iter_close(&index_iter);
 	reftable_record_release(&want_index_rec);
